@@ -28,13 +28,16 @@ def sign_patterns(run, tier, rng):
     tmp = tempfile.mkdtemp(prefix="verif_c17_")
     try:
         k = 0
-        for scale in (1.0, 1e-3, 1e4):
+        # (1e160 / 1e-170: the sum of squares leaves the doubles - whatever the statistics hold is what must come back)
+        for scale in (1.0, 1e-3, 1e4, 1e160, 1e-170):
             for signs in ((1, 1), (-1, 1), (-1, -1), (1, -1)):
-                for dt in (np.float64, np.float32):
+                for dt in (np.float64, np.float32) if 1e-10 < scale < 1e10 else (np.float64,):
                     for norm_var in (True, False):
                         data = (np.abs(nprng.randn(7, 2)) * scale * np.array(signs) - (0.1 * scale * np.array(signs))).astype(dt)
                         s = post.Standardize(norm_var=norm_var)
-                        s.accumulate(data)
+                        with warnings.catch_warnings():
+                            warnings.simplefilter("ignore")
+                            s.accumulate(data)
                         probe = (nprng.randn(5, 2) * scale).astype(np.float64)
                         with warnings.catch_warnings():
                             warnings.simplefilter("ignore")
